@@ -18,19 +18,24 @@ CHECKS.update({
         "text": "Structural necessary conditions of gradient correctness for all 6 GEMINI classes x 2 ovo modes: same score expression "
                 "with and without the gradient, gradient axes exactly [N,K] under a named-axis abstract interpretation (no axis-less "
                 "squeeze, no broadcasting between different axes), gradient masked by the clip mask of the raw predictions, return "
-                "arity, pairing of Wasserstein dual potentials with their marginals. The equality of the hand-derived blocks with the "
-                "derivative is NOT decided.",
+                "arity, pairing of Wasserstein dual potentials with their marginals, zero-distance masks. And the derivative itself: "
+                "evaluate() is translated to index-notation terms with symbolic sizes, the score term is differentiated symbolically and "
+                "compared as a canonical form with the returned gradient term (equal up to a per-sample constant) for all 12 objectives.",
         "note": "trusted: numpy/POT shape semantics as encoded in gcverif/e3_numpy.py; reaching definitions on a hand-built statement CFG.",
-        "technique": "named-axis abstract interpretation + reaching definitions + canonical-form comparison + mirror comparison",
+        "technique": "source-to-term translation with symbolic differentiation and canonical-form (term rewriting) comparison + named-axis abstract "
+                     "interpretation + reaching definitions + mirror comparison",
     },
     "C03": {
         "text": "The structural core of 'updates follow the true gradient': provenance (no gradient built from another gradient), chain-rule "
                 "required reads derived from the forward pass, number/axes alignment of gradients and weights at every "
                 "optimiser.update_params call for every estimator and batch mode, no cross-sample reduction inside back-propagation, "
-                "loop protocol of both training loops, optimiser aliasing, formal sign. Jacobian formulas and scalar factors are NOT decided.",
+                "loop protocol of both training loops, optimiser aliasing, formal sign; and the formulas: for 17 of the 18 estimators the direction "
+                "handed to the optimiser equals, as a canonical term, minus the symbolic chain rule of the GEMINI gradient through the model's "
+                "own _infer plus the gradient of its penalty. Douglas' backward pass is outside the translated subset (structural rules only).",
         "note": "trusted: numpy shape semantics table; sklearn optimisers update params[i] in place with grads[i]; Douglas cut-point gradients "
                 "are outside the shape domain and excluded from the shape and sign rules.",
-        "technique": "backward slicing on a CFG + forward-pass dependency extraction + named-axis abstract interpretation",
+        "technique": "source-to-term translation with symbolic differentiation and canonical-form comparison + backward slicing on a CFG + "
+                     "forward-pass dependency extraction + named-axis abstract interpretation",
     },
     "C04": {
         "text": "API resolution of every attribute/import/keyword/numpy name against the sources and stubs installed in /venv, abstract-method "
@@ -79,10 +84,11 @@ CHECKS.update({
     "C13": {
         "text": "Permutation equivariance by construction (usage classes of every operation along the sample and cluster axes in the "
                 "named-axis interpretation of all 12 objectives) and finiteness-by-clipping (raw predictions only reach the mask/clip, "
-                "floored square roots, masked zero distances, empty-cluster zero gradient). Non-negativity, zero at independence, log K "
-                "and the unit bounds are NOT decided.",
+                "floored square roots, masked zero distances, empty-cluster zero gradient), statelessness of the objectives, and zero at "
+                "independence (the score term with y[n,k] := c[k] normalises to 0, chi-square to 1/2). Non-negativity, log K and the unit "
+                "bounds are NOT decided.",
         "note": "trusted: numpy semantics table; epsilon validated in (0,1).",
-        "technique": "named-axis abstract interpretation with usage classes + sanitiser/taint rules on slices",
+        "technique": "named-axis abstract interpretation with usage classes + sanitiser/taint rules on slices + canonical-form term rewriting",
     },
     "C17": {
         "text": "Structural hazards for finiteness: axis-less squeeze on symbolic axes, softmax outputs reaching a denominator or log without "
@@ -104,9 +110,11 @@ CHECKS.update({
     "C01": {
         "text": "Registry exactness (abstract evaluation of _str_to_gemini for every listed name: class by prefix, ovo by suffix, no fall-through, "
                 "no unlisted handled name, estimator constraint = the list), ovo plumbing, and the pairwise-structure clause for TV/MMD/"
-                "Wasserstein. That each closed form numerically equals the named divergence is NOT decided.",
+                "Wasserstein; and the closed forms: the term of each evaluate() equals, as a canonical form on the simplex with symbolic n and K, "
+                "the term of the reference definition (gcverif/gemini_specs.py) for all 6 classes x 2 modes; result buffers are floating point.",
         "note": "trusted: the <distance>_<ova|ovo> naming convention stated in the property; numpy semantics table.",
-        "technique": "abstract evaluation of the registry + named-axis abstract interpretation",
+        "technique": "source-to-term translation and canonical-form (term rewriting) comparison with reference definitions + abstract evaluation of "
+                     "the registry + named-axis abstract interpretation",
     },
     "C06": {
         "text": "Shrinkage wiring (prox after the optimiser step, threshold canonically alpha*optimiser learning rate, in-place copy output i -> "
